@@ -70,11 +70,13 @@ func (m *Mux) NewEndpoint(matchFunc MatchFunc) *Endpoint {
 	// Set a maximum size of the buffer in bytes.
 	endpoint.buffer.SetLimitSize(maxBufferSize)
 
+	// Register the endpoint and hand it the matching pending packets in one
+	// critical section, so that a packet dispatched after the registration
+	// can not overtake the packets that were queued before it.
 	m.lock.Lock()
 	m.endpoints[endpoint] = matchFunc
+	m.handlePendingPackets(endpoint, matchFunc)
 	m.lock.Unlock()
-
-	go m.handlePendingPackets(endpoint, matchFunc)
 
 	return endpoint
 }
@@ -198,10 +200,8 @@ func (m *Mux) dispatch(buf []byte) error {
 	return err
 }
 
+// handlePendingPackets must be called with m.lock held.
 func (m *Mux) handlePendingPackets(endpoint *Endpoint, matchFunc MatchFunc) {
-	m.lock.Lock()
-	defer m.lock.Unlock()
-
 	pendingPackets := make([][]byte, 0, len(m.pendingPackets))
 	for _, buf := range m.pendingPackets {
 		if matchFunc(buf) {
